@@ -190,7 +190,11 @@ func (store *Store) transactionQueryContext(qb query.Builder, q GetTransactionsQ
 			}
 			switch address := value.(type) {
 			case string:
-				return filterAccountAddressOnTransactions(address, true, true), nil, nil
+				clause, err := filterAccountAddressOnTransactions(address, true, true)
+				if err != nil {
+					return "", nil, err
+				}
+				return clause, nil, nil
 			default:
 				return "", nil, newErrInvalidQuery("unexpected type %T for column 'account'", address)
 			}
@@ -201,7 +205,11 @@ func (store *Store) transactionQueryContext(qb query.Builder, q GetTransactionsQ
 			}
 			switch address := value.(type) {
 			case string:
-				return filterAccountAddressOnTransactions(address, true, false), nil, nil
+				clause, err := filterAccountAddressOnTransactions(address, true, false)
+				if err != nil {
+					return "", nil, err
+				}
+				return clause, nil, nil
 			default:
 				return "", nil, newErrInvalidQuery("unexpected type %T for column 'source'", address)
 			}
@@ -212,7 +220,11 @@ func (store *Store) transactionQueryContext(qb query.Builder, q GetTransactionsQ
 			}
 			switch address := value.(type) {
 			case string:
-				return filterAccountAddressOnTransactions(address, false, true), nil, nil
+				clause, err := filterAccountAddressOnTransactions(address, false, true)
+				if err != nil {
+					return "", nil, err
+				}
+				return clause, nil, nil
 			default:
 				return "", nil, newErrInvalidQuery("unexpected type %T for column 'destination'", address)
 			}
